@@ -120,8 +120,6 @@ theorem cutPts_insertPt_out (lo hi : Int) (p : Int × Int) (l : List (Int × Int
         rw [cutPts_cons, cutPts_cons, ih hqs]
         by_cases hqr : inRange lo hi q = true
         · simp only [hqr, if_true]
-          -- q is cut: p goes in front of the cut tail or further; both sides agree
-          rfl
         · have hqr' : inRange lo hi q = false := by simpa using hqr
           simp only [hqr', Bool.false_eq_true, if_false]
           simp [insertPt, hge, hne]
@@ -138,5 +136,236 @@ theorem cutPts_addPts (lo hi : Int) (a b : List (Int × Int)) (h : Asc a) :
     · simp only [hp, if_true, cutPts_insertPt_in lo hi p a hp]
     · have hp' : inRange lo hi p = false := by simpa using hp
       simp only [hp', Bool.false_eq_true, if_false, List.foldl_cons, cutPts_insertPt_out lo hi p a h hp']
+
+/-! ### tombstones of one key in one TSM file -/
+
+def covered (ts : List (Int × Int)) (x : Int) : Prop := ∃ r ∈ ts, r.1 ≤ x ∧ x ≤ r.2
+
+theorem tombWindow_go_covers (seen : List (Int × Int)) (prev w : Int × Int) (rest : List (Int × Int))
+    (hprev : prev ∈ seen) (hpw : w.1 ≤ prev.1 ∧ prev.2 ≤ w.2) (hpne : prev.1 ≤ prev.2)
+    (hne : ∀ r ∈ rest, r.1 ≤ r.2)
+    (hcov : ∀ x, w.1 ≤ x → x ≤ w.2 → covered seen x)
+    (w' : Int × Int) (h : tombWindow.go prev w rest = some w') :
+    ∀ x, w'.1 ≤ x → x ≤ w'.2 → covered (seen ++ rest) x := by
+  induction rest generalizing seen prev w with
+  | nil =>
+    simp only [tombWindow.go, Option.some.injEq] at h
+    subst h
+    simpa using hcov
+  | cons t ts ih =>
+    simp only [tombWindow.go] at h
+    split at h
+    · cases h
+    · next hc =>
+      have htne : t.1 ≤ t.2 := hne t (by simp)
+      have := ih (seen ++ [t]) t _ (by simp) ?_ htne (fun r hr => hne r (by simp [hr])) ?_ h
+      · simpa using this
+      · constructor <;> (split <;> omega)
+      · intro x hx1 hx2
+        by_cases hxw : w.1 ≤ x ∧ x ≤ w.2
+        · obtain ⟨r, hr, hr2⟩ := hcov x hxw.1 hxw.2
+          exact ⟨r, by simp [hr], hr2⟩
+        · by_cases hxt : t.1 ≤ x ∧ x ≤ t.2
+          · exact ⟨t, by simp, hxt⟩
+          · exfalso
+            have hc' : prev.2 = t.1 - 1 ∨ (prev.1 ≤ t.2 ∧ prev.2 ≥ t.1) := by
+              by_cases h1 : prev.2 = t.1 - 1
+              · exact Or.inl h1
+              · right
+                have := Classical.not_and_iff_not_or_not.1 hc
+                rcases this with h2 | h2
+                · exact absurd h1 h2
+                · exact Classical.not_not.1 h2
+            simp only at hx1 hx2
+            split at hx1 <;> split at hx2 <;> omega
+
+/-- **The window test is sound**: when the sorted tombstones line up, every instant of the
+    window lies in one of them. -/
+theorem tombWindow_covers (ts : List (Int × Int)) (hne : ∀ r ∈ ts, r.1 ≤ r.2) (w : Int × Int)
+    (h : tombWindow ts = some w) : ∀ x, w.1 ≤ x → x ≤ w.2 → covered ts x := by
+  cases ts with
+  | nil => simp [tombWindow] at h
+  | cons r rest =>
+    simp only [tombWindow] at h
+    have := tombWindow_go_covers [r] r r rest (by simp) ⟨Int.le_refl _, Int.le_refl _⟩ (hne r (by simp))
+      (fun x hx => hne x (by simp [hx])) (fun x h1 h2 => ⟨r, by simp, h1, h2⟩) w h
+    simpa using this
+
+theorem mem_insertTomb {r x : Int × Int} {l : List (Int × Int)} : x ∈ insertTomb r l ↔ x = r ∨ x ∈ l := by
+  induction l with
+  | nil => simp [insertTomb]
+  | cons q qs ih =>
+    simp only [insertTomb]
+    split
+    · simp
+    · simp only [List.mem_cons, ih]
+      constructor
+      · rintro (h | h | h)
+        · exact Or.inr (Or.inl h)
+        · exact Or.inl h
+        · exact Or.inr (Or.inr h)
+      · rintro (h | h | h)
+        · exact Or.inr (Or.inl h)
+        · exact Or.inl h
+        · exact Or.inr (Or.inr h)
+
+/-- a file entry as the engine writes it: values strictly ascending, tombstones non-empty ranges -/
+def FileEnt.WF (f : FileEnt) : Prop := Asc f.pts ∧ ∀ r ∈ f.tombs, r.1 ≤ r.2
+
+def inTombs (tombs : List (Int × Int)) (p : Int × Int) : Bool :=
+  tombs.any fun r => decide (r.1 ≤ p.1 ∧ p.1 ≤ r.2)
+
+theorem visible_def (f : FileEnt) : f.visible = if f.gone then [] else f.pts.filter fun p => !inTombs f.tombs p := rfl
+
+theorem inTombs_insertTomb (lo hi : Int) (tombs : List (Int × Int)) (p : Int × Int) :
+    inTombs (insertTomb (lo, hi) tombs) p = (inRange lo hi p || inTombs tombs p) := by
+  simp only [inTombs, inRange]
+  rw [Bool.eq_iff_iff]
+  simp only [List.any_eq_true, Bool.or_eq_true, decide_eq_true_eq, mem_insertTomb]
+  constructor
+  · rintro ⟨r, (rfl | hr), h⟩
+    · exact Or.inl h
+    · exact Or.inr ⟨r, hr, h⟩
+  · rintro (h | ⟨r, hr, h⟩)
+    · exact ⟨(lo, hi), Or.inl rfl, h⟩
+    · exact ⟨r, Or.inr hr, h⟩
+
+theorem asc_le_last {l : List (Int × Int)} (h : Asc l) {b : Int × Int}
+    (hb : l.getLast? = some b) : ∀ p ∈ l, p.1 ≤ b.1 := by
+  induction l with
+  | nil => intro p hp; cases hp
+  | cons x xs ih =>
+    intro p hp
+    cases xs with
+    | nil =>
+      simp only [List.getLast?_singleton, Option.some.injEq] at hb
+      subst hb
+      simp only [List.mem_singleton] at hp
+      subst hp; exact Int.le_refl _
+    | cons y ys =>
+      rw [List.getLast?_cons_cons] at hb
+      have hxs : Asc (y :: ys) := (List.pairwise_cons.1 h).2
+      rcases List.mem_cons.1 hp with rfl | hp
+      · have hyb := ih hxs hb y (List.mem_cons_self)
+        have := (List.pairwise_cons.1 h).1 y (by simp)
+        omega
+      · exact ih hxs hb p hp
+
+theorem asc_bounds {l : List (Int × Int)} (h : Asc l) {a b : Int × Int}
+    (ha : l.head? = some a) (hb : l.getLast? = some b) : ∀ p ∈ l, a.1 ≤ p.1 ∧ p.1 ≤ b.1 := by
+  intro p hp
+  refine ⟨?_, asc_le_last h hb p hp⟩
+  cases l with
+  | nil => cases hp
+  | cons x xs =>
+    simp only [List.head?_cons, Option.some.injEq] at ha
+    subst ha
+    rcases List.mem_cons.1 hp with rfl | hp
+    · exact Int.le_refl _
+    · exact Int.le_of_lt ((List.pairwise_cons.1 h).1 p hp)
+
+/-- **`indirectIndex.DeleteRange` removes exactly the values in the range** from what the file
+    shows of the key — also when it decides to drop the key altogether. -/
+theorem visible_deleteRange (f : FileEnt) (hwf : f.WF) (lo hi : Int) (hlh : lo ≤ hi) :
+    (f.deleteRange lo hi).visible = cutPts lo hi f.visible := by
+  obtain ⟨fpts, ftombs, fgone⟩ := f
+  unfold FileEnt.deleteRange
+  by_cases hg : (⟨fpts, ftombs, fgone⟩ : FileEnt).gone = true
+  · simp [hg, visible_def, cutPts]
+  · have hg' : fgone = false := by simpa using hg
+    subst hg'
+    generalize hf : (⟨fpts, ftombs, false⟩ : FileEnt) = f at *
+    have hg' : f.gone = false := by rw [← hf]
+    simp only [hg', Bool.false_eq_true, if_false]
+    cases ha : f.pts.head? with
+    | none =>
+      have : f.pts = [] := by simpa using ha
+      simp [visible_def, hg', this, cutPts]
+    | some a =>
+      cases hb : f.pts.getLast? with
+      | none =>
+        have : f.pts = [] := by simpa using hb
+        rw [this] at ha; cases ha
+      | some b =>
+        simp only
+        have hbnd := asc_bounds hwf.1 ha hb
+        by_cases hout : lo > b.1 ∨ hi < a.1
+        · simp only [hout, if_true]
+          -- nothing of the key lies in the range
+          simp only [visible_def, hg', Bool.false_eq_true, if_false, cutPts, List.filter_filter]
+          apply List.filter_congr
+          intro p hp
+          have := hbnd p hp
+          have : decide (lo ≤ p.1 ∧ p.1 ≤ hi) = false := by
+            simp only [decide_eq_false_iff_not]; omega
+          simp [this]
+        · simp only [hout, if_false]
+          by_cases hcov : lo ≤ a.1 ∧ hi ≥ b.1
+          · simp only [hcov, and_self, if_true]
+            simp only [visible_def, Bool.true_eq_false, if_true]
+            simp only [hg', Bool.false_eq_true, if_false, cutPts, List.filter_filter]
+            symm
+            rw [List.filter_eq_nil_iff]
+            intro p hp
+            have := hbnd p hp
+            have : decide (lo ≤ p.1 ∧ p.1 ≤ hi) = true := by
+              simp only [decide_eq_true_eq]; omega
+            simp [this]
+          · simp only [hcov, if_false]
+            have hts : ∀ r ∈ insertTomb (lo, hi) f.tombs, r.1 ≤ r.2 := by
+              intro r hr
+              rcases mem_insertTomb.1 hr with rfl | hr
+              · exact hlh
+              · exact hwf.2 r hr
+            have hkeep : ({ f with tombs := insertTomb (lo, hi) f.tombs } : FileEnt).visible =
+                cutPts lo hi f.visible := by
+              simp only [visible_def, hg', Bool.false_eq_true, if_false, cutPts, List.filter_filter]
+              apply List.filter_congr
+              intro p _
+              rw [inTombs_insertTomb]
+              simp only [inRange]
+              cases decide (lo ≤ p.1 ∧ p.1 ≤ hi) <;> cases inTombs f.tombs p <;> rfl
+            cases hw : tombWindow (insertTomb (lo, hi) f.tombs) with
+            | none => simpa using hkeep
+            | some w =>
+              simp only
+              by_cases hwc : w.1 ≤ a.1 ∧ w.2 ≥ b.1
+              · simp only [hwc, and_self, if_true]
+                -- the key is dropped: every value is under some tombstone, old or new
+                simp only [visible_def, Bool.true_eq_false, if_true]
+                simp only [hg', Bool.false_eq_true, if_false, cutPts, List.filter_filter]
+                symm
+                rw [List.filter_eq_nil_iff]
+                intro p hp
+                have hb2 := hbnd p hp
+                obtain ⟨r, hr, hr2⟩ := tombWindow_covers _ hts w hw p.1 (by omega) (by omega)
+                rcases mem_insertTomb.1 hr with rfl | hr
+                · have : decide (lo ≤ p.1 ∧ p.1 ≤ hi) = true := by simpa using hr2
+                  simp [this]
+                · have : inTombs f.tombs p = true := by
+                    simp only [inTombs, List.any_eq_true, decide_eq_true_eq]
+                    exact ⟨r, hr, hr2⟩
+                  simp [this]
+              · simp only [hwc, if_false]
+                exact hkeep
+
+theorem deleteRange_cases (f : FileEnt) (lo hi : Int) :
+    f.deleteRange lo hi = f ∨ f.deleteRange lo hi = { f with gone := true } ∨
+    f.deleteRange lo hi = { f with tombs := insertTomb (lo, hi) f.tombs } := by
+  unfold FileEnt.deleteRange
+  simp only
+  repeat' split
+  all_goals simp
+
+theorem wf_deleteRange (f : FileEnt) (hwf : f.WF) (lo hi : Int) (hlh : lo ≤ hi) : (f.deleteRange lo hi).WF := by
+  have hts : ∀ r ∈ insertTomb (lo, hi) f.tombs, r.1 ≤ r.2 := by
+    intro r hr
+    rcases mem_insertTomb.1 hr with rfl | hr
+    · exact hlh
+    · exact hwf.2 r hr
+  rcases deleteRange_cases f lo hi with h | h | h <;> rw [h]
+  · exact hwf
+  · exact hwf
+  · exact ⟨hwf.1, hts⟩
 
 end Influx.Model.StoreDel
